@@ -65,7 +65,10 @@ func init() {
 		for r := 0; r < *rounds; r++ {
 			rnd := newRand(int64(900 + r))
 			t := tracer.New()
-			e, err := env.Start(env.Options{Nodes: 2, NumConns: 1, Hooks: false, Tracer: t, Keyspaces: []string{"ks"}})
+			// every second and third round the backend demands authentication (password / the DSE authenticator with its
+			// challenge round): the control connection must register for events whichever way its handshake went
+			auth := []string{"", "dse", "password"}[r%3]
+			e, err := env.Start(env.Options{Nodes: 2, NumConns: 1, Hooks: false, Tracer: t, Keyspaces: []string{"ks"}, BackendAuth: auth})
 			if err != nil {
 				return err
 			}
